@@ -101,6 +101,7 @@ func contract_Parser_initializePackages(p *Parser, filename string) (pkg *packag
 //kvc:contract (*Parser).findInjectDirectives
 func contract_Parser_findInjectDirectives(p *Parser, file *ast.File, pkg *packages.Package, kessokuPackageScope *types.Scope, imports map[string]*Import, fileImports []*ast.ImportSpec, varPool *VarPool) (builds []*BuildDirective, err error) {
 	vs.Ensures("builds_nonnil", vs.Forall(len(builds), func(i int) bool { return builds[i] != nil }))
+	vs.Ensures("imports_nonnil", vs.Implies(vs.Old(importsNonNil(imports)), importsNonNil(imports)))
 	vs.ModifiesAll()
 	vs.Allocates()
 	return
@@ -111,6 +112,7 @@ func contract_Parser_ParseFile(p *Parser, filename string, varPool *VarPool) (me
 	vs.Requires(p != nil && varPool != nil)
 	vs.TypeInvariants()
 	vs.Ensures("builds_nonnil", vs.Forall(len(builds), func(i int) bool { return builds[i] != nil }))
+	vs.Ensures("metadata_ready", vs.Implies(err == nil && len(builds) > 0, metaData != nil && metaData.Imports != nil && importsNonNil(metaData.Imports)))
 	vs.ModifiesAll()
 	vs.Allocates()
 	return
@@ -149,12 +151,12 @@ func inv_ParseFile_reserve_names(pkg *packages.Package, f *ast.File, decl *ast.G
 
 //kvc:loop (*Parser).ParseFile "for _, f := range pkg.Syntax { if f == nil { continue } for _, imp := range f.Imports"
 func inv_ParseFile_import_files(pkg *packages.Package, metaData *MetaData, varPool *VarPool) {
-	vs.Invariant("wf", loadedPackageWF(pkg) && metaData != nil && metaData.Imports != nil && poolInv(varPool))
+	vs.Invariant("wf", loadedPackageWF(pkg) && metaData != nil && metaData.Imports != nil && importsNonNil(metaData.Imports) && poolInv(varPool))
 }
 
 //kvc:loop (*Parser).ParseFile "for _, imp := range f.Imports"
 func inv_ParseFile_imports(pkg *packages.Package, f *ast.File, metaData *MetaData, varPool *VarPool) {
-	vs.Invariant("wf", loadedPackageWF(pkg) && f != nil && fileWF(f) && metaData != nil && metaData.Imports != nil && poolInv(varPool))
+	vs.Invariant("wf", loadedPackageWF(pkg) && f != nil && fileWF(f) && metaData != nil && metaData.Imports != nil && importsNonNil(metaData.Imports) && poolInv(varPool))
 }
 
 // every reservation of a user identifier happens while no name has been handed out yet
